@@ -48,6 +48,8 @@ def cases(tier, seed):
     for i, perm in enumerate(itertools.permutations(range(3))):
         for extra in ("none", "prepend", "append"):
             yield {"kind": "order", "perm": list(perm), "extra": extra, "idx": i}
+    for i in range(24 if tier == "quick" else 200):  # one configuration dictionary used for several back-ends
+        yield {"kind": "shared_dict", "idx": i, "seed": seed}
     for i in range(60 if tier == "quick" else 1500):  # look-ups interleaved with repositories added later
         yield {"kind": "resolve_history", "idx": i, "seed": seed}
     for i in range(256):  # which options the configuration has x which options are given explicitly
@@ -374,6 +376,50 @@ def run_resolve_history(case, out, fail, sc):
     out["sample"] = {"history": trace}
 
 
+def run_shared_dict(case, out, fail, sc):
+    """One configuration dictionary object is handed to several constructors, some with explicit arguments: every
+    backend behaves as the configuration the caller wrote + its own arguments say."""
+    from twosigma.memento.storage_filesystem import FilesystemStorageBackend
+    from twosigma.memento.storage_memory import MemoryStorageBackend
+
+    rng = core.rng_for(case["seed"], ID, "shared", case["idx"])
+    audit = audit_for([sc.root])
+    kind = rng.choice(["filesystem", "filesystem", "memory"])
+    cfg = {"type": kind}
+    if kind == "filesystem":
+        cfg["path"] = sc.path("S", "data")
+        if rng.random() < 0.5:
+            cfg["metadata_path"] = sc.path("S", "meta")
+        if rng.random() < 0.5:
+            cfg["memory_cache_mb"] = rng.choice([1, 4 * env.KIB])
+    if rng.random() < 0.6:
+        cfg["readonly"] = rng.random() < 0.5
+    original = json.loads(json.dumps(cfg))
+    label = "configuration %s" % (original,)
+    for n in range(rng.randint(2, 4)):
+        kw = {}
+        if rng.random() < 0.6:
+            kw["read_only"] = rng.random() < 0.5
+        if kind == "filesystem" and rng.random() < 0.3:
+            kw["memory_cache_mb"] = rng.choice([0, 1])
+        cls = FilesystemStorageBackend if kind == "filesystem" else MemoryStorageBackend
+        st = cls(config=cfg, **kw)                       # the shared dictionary object
+        ref = cls(config=json.loads(json.dumps(original)), **kw)  # a private copy of what the caller wrote
+        out["obs"]["backends_built_from_a_shared_dictionary"] += 1
+        if bool(st.read_only) != bool(ref.read_only):
+            fail("a configuration dictionary used for several back-ends carries one backend's arguments over to the next: read-only flag",
+                 "%s, construction %d with %s: read_only=%s, from a private copy of the configuration %s" % (
+                     label, n, kw, st.read_only, ref.read_only))
+        if kind == "filesystem":
+            has = lambda b: getattr(b, "_memory_cache", None) is not None
+            if has(st) != has(ref):
+                fail("a configuration dictionary used for several back-ends carries one backend's arguments over to the next: memory cache",
+                     "%s, construction %d with %s: cache %s, from a private copy %s" % (label, n, kw, has(st), has(ref)))
+        if cfg != original:  # (not judged by itself: only its effect on the next backend is)
+            out["obs"]["constructions_that_modified_the_callers_dictionary"] += 1
+    out["sample"] = {"configuration": original}
+
+
 def run_override(case, out, fail, sc):
     import twosigma.memento as m
     from twosigma.memento.storage_filesystem import FilesystemStorageBackend
@@ -452,6 +498,8 @@ def run_case(case):
             run_matrix(case, out, fail, sc, dump=True)
         elif case["kind"] == "order":
             run_order(case, out, fail, sc)
+        elif case["kind"] == "shared_dict":
+            run_shared_dict(case, out, fail, sc)
         elif case["kind"] == "resolve_history":
             run_resolve_history(case, out, fail, sc)
         else:
@@ -464,5 +512,5 @@ def run_case(case):
 
 def conclude(agg):
     return core.first(core.need(agg, "vectors_compared", 150), core.need(agg, "dump_vectors_compared", 30),
-                      core.need(agg, "resolutions_checked", 100), core.need(agg, "resolutions_in_histories", 100), core.need(agg, "override_vectors_compared", 200), core.need(agg, "override_dump_vectors_compared", 200),
+                      core.need(agg, "resolutions_checked", 100), core.need(agg, "resolutions_in_histories", 100), core.need(agg, "backends_built_from_a_shared_dictionary", 40), core.need(agg, "override_vectors_compared", 200), core.need(agg, "override_dump_vectors_compared", 200),
                       core.need(agg, "runner_behaviours_checked", 100)), {"exhaustive": True}
